@@ -103,7 +103,7 @@ class CacheRun(object):
   pass
 
 
-def run_case(case, on_point=None, trace_protocols=True, extra_trace=(), post=None):
+def run_case(case, on_point=None, trace_protocols=True, extra_trace=(), post=None, setup=None, extra_ops=None):
   b = env.bootstrap()
   strategy = case['strategy']
   mcs = case.get('max_cache_size')
@@ -143,6 +143,8 @@ def run_case(case, on_point=None, trace_protocols=True, extra_trace=(), post=Non
       raise HarnessError('_MetricCache has no .lock attribute any more')
     cache.lock = sched.make_lock()
     run.cache = cache
+    if setup is not None:
+      setup(run, sched)
     current_op = [None, None]
 
     def overflow_handler():
@@ -181,6 +183,9 @@ def run_case(case, on_point=None, trace_protocols=True, extra_trace=(), post=Non
           kind = spec[0]
           if kind == 'wait':
             sched.sleep(float(spec[1]))
+            continue
+          if extra_ops and kind in extra_ops:
+            extra_ops[kind](run, sched, spec)
             continue
           op = Op(idx, kind, spec[1:])
           current_op[idx] = op
